@@ -137,21 +137,40 @@ Theorem C16_relabelling_identity_without_heralds : forall lp k, p_her lp = [] ->
 Proof. exact sigma_id_without_heralds. Qed.
 Print Assumptions C16_relabelling_identity_without_heralds.
 
-(* full statement: forall lp, wf_her lp -> msize lp <> 0 -> (forall st, p_in lp = Some st -> length st = p_size lp) ->
-     exists rp, from_local lp = Ok rp /\ converted lp rp /\ (input kept, relabelled).    It is false: *)
-Theorem C16_from_local_preserves_refuted :
-  exists lp, wf_her lp /\ msize lp <> 0 /\ (forall st, p_in lp = Some st -> length st = p_size lp) /\
-    from_local lp = Err XAssert 1.
-Proof. exact from_local_preserves_refuted. Qed.
-Print Assumptions C16_from_local_preserves_refuted.
+(* conversion of ANY local processor (current code, repo commit 55925315): the circuit id, size, mode relabelling,
+   heralds, post-selection, noise and filter are kept up to sigma, and the full input state is kept too: same photons
+   on the modes of interest in the same order, the herald photons on the relabelled herald modes *)
+Theorem C16_from_local_preserves : forall lp,
+  wf_her lp -> msize lp <> 0 -> (forall st, p_in lp = Some st -> length st = p_size lp) ->
+  exists rp, from_local lp = Ok rp /\ converted lp rp /\
+    match p_in lp with
+    | None => p_in rp = None
+    | Some st => exists full, p_in rp = Some full /\ length full = p_size lp /\
+        remove_her (p_her rp) 0 full = remove_her (p_her lp) 0 st /\
+        (forall k v, her_find (p_her lp) k = Some v -> nth (sigma lp k) full 0 = v)
+    end.
+Proof. exact from_local_preserves. Qed.
+Print Assumptions C16_from_local_preserves.
 
-(* on the complement (no herald, or no input yet) conversion keeps everything *)
-Theorem C16_from_local_preserves_partial : forall lp,
+Example C16_from_local_preserves_satisfiable :
+  from_local (mkproc (mkcirc 0 4 [0; 1; 2; 3]) [] [] [(1, 1); (3, 0)] (Some [1; 1; 0; 0]) None None (Some 1))
+  = Ok (mkproc (mkcirc 0 4 [0; 2; 1; 3]) [] [] [(2, 1); (3, 0)] (Some [1; 0; 1; 0]) None (Some []) (Some 1)).
+Proof. vm_compute. reflexivity. Qed.
+
+(* historical: the code before that repair refused every processor that had a herald and an input ... *)
+Theorem C16_from_local_preserves_refuted_old_code :
+  exists lp, wf_her lp /\ msize lp <> 0 /\ (forall st, p_in lp = Some st -> length st = p_size lp) /\
+    from_local_old_code lp = Err XAssert 1.
+Proof. exact from_local_old_code_refuted. Qed.
+Print Assumptions C16_from_local_preserves_refuted_old_code.
+
+(* ... and was right on the complement *)
+Theorem C16_from_local_preserves_partial_old_code : forall lp,
   msize lp <> 0 -> (forall st, p_in lp = Some st -> length st = p_size lp) ->
   p_her lp = [] \/ p_in lp = None ->
-  exists rp, from_local lp = Ok rp /\ converted lp rp /\ p_in rp = p_in lp.
-Proof. exact from_local_partial. Qed.
-Print Assumptions C16_from_local_preserves_partial.
+  exists rp, from_local_old_code lp = Ok rp /\ converted lp rp /\ p_in rp = p_in lp.
+Proof. exact from_local_old_code_partial. Qed.
+Print Assumptions C16_from_local_preserves_partial_old_code.
 
 (* with_input (before or after conversion) stores the full state: the given photons on the modes of interest and
    the herald photons on the herald modes *)
